@@ -24,7 +24,7 @@ ASSUMPTIONS = ['json.loads of the standard library is the reference model; only 
                'generated (no U+2028/U+2029 raw in strings)']
 BUDGET_S = {'quick': 60, 'thorough': 600}
 REQUIRED_HITS = ['ast_to_dict', 'LiteralEval', 'GroupAsMap', 'GroupAsList']
-FLOOR = {'quick': 5000, 'thorough': 100000}
+FLOOR = {'quick': 5000, 'thorough': 60000}
 
 
 def equal(a, b):
